@@ -14,6 +14,7 @@ def rstr(rng, alph=ALPH, maxlen=5):
 def gen_wbs(rng, n, ids=None, links=True, alph=ALPH, names='some'):
     w = WBS(); ts = []
     pool = list(ids) if ids else list(range(1, 50)); rng.shuffle(pool)
+    if not ids and rng.random() < .3: pool = [0] + pool          # a plan numbered from 0: the first task (often a summary) has a falsy id
     for i in range(n):
         kw = {}
         if names == 'all' or rng.random() < .6: kw['name'] = rstr(rng, alph)
